@@ -1,7 +1,55 @@
-(* API commands for the Vpsc package (stub until the package lands). *)
-From Coq Require Import ZArith List.
-From Labella Require Import Extract.Codec.
+(* API commands 400..499: the VPSC solver model (C05). *)
+From Coq Require Import ZArith QArith Qround List Bool.
+From Labella Require Import Extract.Codec Vpsc.Vpsc Vpsc.Kkt.
 Import ListNotations.
 Open Scope Z_scope.
 
-Definition api_vpsc (cmd : Z) (a : list Z) : list Z := bad_input.
+Definition d_var : dec var := fun l =>
+  match d_q l with
+  | Some (d, r1) => match d_q r1 with
+    | Some (w, r2) => match d_q r2 with
+      | Some (s, r3) => Some (mkVar d w s, r3) | None => None end
+    | None => None end
+  | None => None
+  end.
+Definition d_con : dec con := fun l =>
+  match d_nat l with
+  | Some (a, r1) => match d_nat r1 with
+    | Some (b, r2) => match d_q r2 with
+      | Some (g, r3) => Some (mkCon a b g, r3) | None => None end
+    | None => None end
+  | None => None
+  end.
+Definition d_inst : dec (list var * list con) := d_pair (d_list d_var) (d_list d_con).
+
+Definition e_nat (n : nat) : list Z := [Z.of_nat n].
+(* rationals are written unreduced (the reader normalises): Codec.e_q's Qred
+   is a binary gcd that is slow on the long cost denominators *)
+Definition e_qu (q : Q) : list Z := [Qnum q; Zpos (Qden q)].
+
+(* 400: solve.  in: vars (des w scale)*, cons (l r gap)*
+   out: 1 positions cost flags nsat |list| |store| active g_pos g_lm g_mag g_tie g_tlm
+          feas_ok cost_ok part_ok kkt_ok floor(gap*10^12)   (the proved checkers of Vpsc/Kkt.v on the exit state)
+      | 0 k   (out of fuel: 1 traversal, 2 satisfy loop, 3 solve loop) *)
+Definition api_solve (a : list Z) : list Z :=
+  match d_inst a with
+  | Some ((vs, cs), _) =>
+      match solve vs cs with
+      | Ok (st, cost, nsat) =>
+          let g := s_mg st in
+          1 :: e_list e_qu (positions vs st) ++ e_qu cost ++ e_list e_bool (flags st)
+            ++ e_nat nsat ++ e_nat (length (s_list st)) ++ e_nat (length (s_b st))
+            ++ e_list e_bool (map k_act (s_c st))
+            ++ e_qu (g_pos g) ++ e_qu (g_lm g) ++ e_qu (g_mag g) ++ e_nat (g_tie g) ++ e_nat (g_tlm g)
+            ++ e_bool (state_feas_ok vs cs st) ++ e_bool (state_cost_ok vs st cost)
+            ++ e_bool (part_ok vs st) ++ e_bool (kkt_ok vs cs st) ++ [Qfloor (state_gap vs cs st * (1000000000000 # 1))]
+      | Fuel k => [0; Z.of_nat k]
+      end
+  | None => bad_input
+  end.
+
+Definition api_vpsc (cmd : Z) (a : list Z) : list Z :=
+  match cmd with
+  | 400 => api_solve a
+  | _ => bad_input
+  end.
